@@ -1,7 +1,7 @@
 ----------------------------- MODULE TraceRtpPack -----------------------------
 (* Trace validation for C23. One ndjson record per run of the REAL internal/stream code
    (newRTPEncoder, subStreamFormat.writeUnitInner, newRTPDecoder):
-     id, codec, branch, m, units: << [class, generated, err, uniform, pts,
+     id, codec, branch, m, emits, pel, del, derrs2, units: << [class, generated, err, uniform, pts,
                                       pkts: <<[len, seq, tsoff]>>, psig, dsig] >>
    generated: the server produced the unit's RTP packets itself (otherwise the publisher's packets
    were passed through and the property does not apply). psig / dsig: [length, checksum] of every
@@ -35,15 +35,33 @@ FirstBad(r, mon) ==
     LET B == {k \in Gen(r) : ~UnitOK(r, k, mon)}
     IN IF B = {} THEN 0 ELSE CHOOSE k \in B : \A j \in B : k <= j
 
-Verdicts == l >= 1 => \A mon \in Monitors :
-    LET fb == FirstBad(Trace[l], mon) IN
-    Monitor(fb = 0, [l |-> l, id |-> Trace[l].id, monitor |-> mon, unit |-> fb])
+\* ---- everything emitted while re-packetization was active (r.emits: one entry per call of
+\* writeUnitInner that reached the output: [unit, active, nilp, uniform, pkts])
+Act(r) == SelectSeq(r.emits, LAMBDA e : e.active)
+RunOK(r, mon) ==
+    CASE mon = "Fits"        -> FitsAll(Act(r), r.m)
+      [] mon = "Consecutive" -> ConsecutiveAll(Act(r))
+      [] mon = "Timestamp"   -> TimestampAll(Act(r))
+      [] mon = "Lossless"    -> r.branch # "nonrtp" => LosslessOnce(r.pel, r.del, r.derrs2)
+RunMonitors == {"Fits", "Consecutive", "Timestamp", "Lossless"}
+\* the first active emission up to which the formula is already false (for the report)
+FirstBadEmit(r, mon) ==
+    LET a == Act(r)
+        Upto(i) == [r EXCEPT !.emits = SubSeq(a, 1, i)]
+        B == {i \in 1..Len(a) : ~RunOK(Upto(i), mon)}
+    IN IF mon = "Lossless" \/ B = {} THEN 0 ELSE a[CHOOSE i \in B : \A j \in B : i <= j].unit
 
-\* conformance (never a verdict): sequence numbers also continue from one generated unit to the next
-SeqContinues(r) ==
-    \A k \in Gen(r) : \A j \in Gen(r) :
-        (j > k /\ \A x \in Gen(r) : ~(k < x /\ x < j)) =>
-            r.units[j].pkts[1].seq = (r.units[k].pkts[Len(r.units[k].pkts)].seq + 1) % 65536
-Drift    == l >= 1 => (SeqContinues(Trace[l]) \/ Emit("DRIFT", [l |-> l, id |-> Trace[l].id]))
+Verdicts == l >= 1 =>
+    /\ \A mon \in Monitors :
+          LET fb == FirstBad(Trace[l], mon) IN
+          Monitor(fb = 0, [l |-> l, id |-> Trace[l].id, monitor |-> mon, scope |-> "unit", unit |-> fb])
+    /\ \A mon \in RunMonitors :
+          Monitor(RunOK(Trace[l], mon), [l |-> l, id |-> Trace[l].id, monitor |-> mon, scope |-> "run",
+                                         unit |-> FirstBadEmit(Trace[l], mon)])
+
+\* conformance with the code's shape (never a verdict): while re-packetization is active a call
+\* whose packet yields no payload emits nothing
+NilSilent(r) == \A i \in DOMAIN r.emits : (r.emits[i].active /\ r.emits[i].nilp) => r.emits[i].pkts = <<>>
+Drift    == l >= 1 => (NilSilent(Trace[l]) \/ Emit("DRIFT", [l |-> l, id |-> Trace[l].id]))
 Accepted == TLCGet("stats").diameter - 1 = Len(Trace)
 =============================================================================
